@@ -195,7 +195,8 @@ Definition fut_ok (f : N) (r : fut) : Prop :=
   match f_side r with
   | Tx => (f_cell r = None \/ f_cell r = Some (f_val r))
           /\ (f_reg r = true -> f_st r = WAITING -> qhas f SQ = true)
-  | Rx => forall v, f_cell r = Some v -> f_st r = DONE /\ f_reg r = true
+  | Rx => (forall v, f_cell r = Some v -> f_st r = DONE /\ f_reg r = true)
+          /\ (f_reg r = true -> f_st r = DONE -> f_cell r <> None)
   end
   /\ (exists hd, aget (f_h r) H = Some hd /\ h_side hd = f_side r).
 
